@@ -56,8 +56,18 @@ func VerifC20_Lifecycle() {
 		case 2:
 			crlrepository.VerifSetServer(urlB, false, nil)
 		}
+		if st == config.Disk && verifrt.Choose(2) == 1 {
+			// leftovers of a process that died during a load: a download file and a staging database
+			verifrt.Disk["/work/crl_424242_tmp"] = &verifrt.Dir{Exists: true, IsFile: true}
+			verifrt.Disk["/work/crl_1b4e28ba-2fa1-11d2-883f-0016d3cca427_tmp"] = &verifrt.Dir{Exists: true, HasFiles: true}
+			if verifrt.Disk["/work"] == nil {
+				verifrt.Disk["/work"] = &verifrt.Dir{Exists: true}
+			}
+			verifrt.Reach("leftovers-planted")
+		}
 		c := &CRLRevocationChecker{}
 		err := c.Provision(cfg, zap.NewNop())
+		verifrt.Assert(verifrt.TempResidue("/work") == 0, "every provisioning (not only the first of the process) sweeps the leftovers in its work_dir")
 		verifrt.DropSpawned() // the ticker goroutine (channels are not encodable; its lifetime is outside the claim)
 		verifrt.Assert((err == nil) == (kind == 0), "provisioning succeeds exactly when the configured CRL is acceptable")
 		if err != nil {
